@@ -67,8 +67,7 @@ theorem InvK.step {s s' : State} (h : Step s s') (hP : InvP s) (hS : InvS s) (hi
     all_goals (first
       | (refine InvK.frame hi' t _ rfl ?_ ?_ rfl rfl rfl rfl rfl rfl rfl <;> (simp [hpc, holds]; done))
       | (exfalso; assumption)
-      | (constructor <;> intros <;> (try dsimp only at *) <;> first | assumption | grind [upd_apply, holds, lists, setRet])
-      | (trace_state; sorry))
+      | (constructor <;> intros <;> (try dsimp only at *) <;> first | assumption | grind [upd_apply, holds, lists, setRet]))
   | tick d => constructor <;> intros <;> (try dsimp only at *) <;> first | assumption | grind [lists]
   | set t v hidle hl hsc => refine InvK.frame hi' t _ rfl ?_ ?_ rfl rfl rfl rfl rfl rfl rfl <;> simp [hidle, holds]
   | down t d hidle hl h1 hb => refine InvK.frame hi' t _ rfl ?_ ?_ rfl rfl rfl rfl rfl rfl rfl <;> simp [hidle, holds]
